@@ -148,13 +148,14 @@ package snapshot
 // NewFullSink / Open establish the representation invariant the other operations keep.
 //@ func NewFullSink
 //@   requires [hdr] hdr != nil
+//@   assigns snapshot.FullSink$, Elems
 //@   loop 1 invariant [paths] len(s.walFiles) == _i && s.header == hdr && s != nil
 //@   ensures [wf] result != nil && wfStatic(result) && !result.opened && result.header == hdr
 //
 //@ func (*FullSink) Open
 //@   safe
 //@   requires [wf] s != nil && (s.header != nil ==> wfStatic(s)) && s.f == nil && s.crcW == nil
-//@   assigns *
+//@   assigns snapshot.FullSink$, Elems$Int
 //@   ensures [wf] result == nil ==> (s.opened && wfSink(s))
 //@   ensures [invalid-header-refused] (old(s.header) == nil || old(s.header.DbHeader) == nil) ==> result != nil
 //
@@ -197,7 +198,7 @@ package snapshot
 //@ func (*FullSink) Write
 //@   safe
 //@   requires [wf] s != nil && (s.opened ==> wfSink(s))
-//@   assigns *
+//@   assigns snapshot.FullSink$, Elems$Int
 //@   assert @s.crcW.Write: [nonempty] len(arg0) > 0
 //@   assert @s.crcW.Write: [no-overrun] len(arg0) <= s.remaining
 //@   assert @s.crcW.Write: [not-after-done] s.phase != installPhaseDone && s.crcW != nil
@@ -212,7 +213,7 @@ package snapshot
 //@ func (*FullSink) Close
 //@   safe
 //@   requires [wf] s != nil && (s.opened ==> wfSink(s))
-//@   assigns *
+//@   assigns snapshot.FullSink$, Elems$Int
 //@   assert @s.advance: [switch-only-when-full] s.remaining == 0
 //@   assert @sidecar.WriteFile#1: [wal-sidecar-crc] arg1 == walCRC && walCRC == s.header.WalHeaders[i].Crc32
 //@   assert @sidecar.WriteFile#2: [db-sidecar-crc] arg1 == s.dbCRC && s.dbCRC == s.header.DbHeader.Crc32
@@ -247,12 +248,13 @@ package snapshot
 //
 // ---- C10: the adaptive Sink in front of FullSink ----------------------------------------------------
 //@ spec import lib/bytes
+//@ spec import lib/protobuf
 //
 // processHeader: never indexes past the buffered bytes, whatever length prefix arrives.
 //@ func (*Sink) processHeader
 //@   safe
 //@   requires [recv] s != nil
-//@   assigns *, bufLen
+//@   assigns header, bufLen, Elems, Box, snapshot.proto.
 //
 // Close: the temporary directory is renamed into place only after the full sink accepted the
 // stream (FullSink.Close == nil: complete, checksums equal to the header), and a nil result
@@ -262,5 +264,93 @@ package snapshot
 //@   assigns **
 //@   ghost var verified bool = false
 //@   ghost update after @s.sinkW.Close: verified = (result == nil)
+//@   ghost var renamed bool = false
+//@   ghost update after @os.Rename#2: renamed = (result == nil)
+//@   assert @s.stc.SetDueNext: [cleared-only-after-install] arg0 == Incremental && renamed
 //@   assert @os.Rename#2: [install-only-verified] (old(s.localWALDir) == "" ==> verified) && arg0 == s.snapTmpDirPath && arg1 == s.snapDirPath
 //@   ensures [nil-means-installed] (result == nil && old(s.opened)) ==> (old(s.sinkW) != nil || old(s.localWALDir) != "")
+//
+// ---- C09: catalog well-formedness and the full-needed flag --------------------------------------------
+//@ spec import C09
+//
+// Temporary names: what Sink writes into (tmpName) is what Scan and check treat as incomplete
+// (isTmpName). The link between the two is filepath.Ext(p + ".tmp") == ".tmp" (trusted).
+//@ func isTmpName
+//@   pure
+//@   ensures [def] result == isTmp(name)
+//@ func tmpName
+//@   pure
+//@   trusted
+//@   ensures [is-tmp] isTmp(result)
+//
+// Ordering of snapshots: lexicographic on (term, index, id).
+//@ func (*Snapshot) Less
+//@   pure
+//@   requires [nonnil] s != nil && other != nil && s.raftMeta != nil && other.raftMeta != nil
+//@   ensures [lexicographic] result == (s.raftMeta.Term < other.raftMeta.Term || (s.raftMeta.Term == other.raftMeta.Term && (s.raftMeta.Index < other.raftMeta.Index || (s.raftMeta.Index == other.raftMeta.Index && s.id < other.id))))
+//
+// Scan: only directories that are not temporary are loaded; the result is sorted before it is returned.
+//@ func (*SnapshotCatalog) loadSnapshot
+//@   trusted
+//@   assigns Elems
+//@   ensures [nonnil] result1 == nil ==> result0 != nil
+//
+//@ func (*SnapshotCatalog) Scan
+//@   assigns Elems
+//@   ghost var sorted bool = false
+//@   ghost update after @sort.Slice: sorted = true
+//@   assert @sort.Slice: [sorts-result] arg0 == snapshots
+//@   assert @c.loadSnapshot: [only-complete-dirs] arg1 == entryName(entry) && entryIsDir(entry) && !isTmp(arg1)
+//@   ensures [sorted] result1 == nil ==> sorted
+//
+// ResolveFiles: the database comes from the nearest full snapshot at or before the requested
+// one, and the WAL chain is the snapshots from there up to the requested one, in order, each once.
+//@ func (SnapshotSet) indexOf
+//@   pure
+//@   ensures [found-or-minus-one] result == -1 || (0 <= result && result < len(ss.items) && (ss.items[result] != nil ==> ss.items[result].id == id))
+//
+//@ func (SnapshotSet) ResolveFiles
+//@   assigns Elems
+//@   ghost var lastI int = -1
+//@   ghost var base int = -1
+//@   ghost var want int = -2
+//@   ghost update after @ss.indexOf: want = result
+//@   loop 1 invariant [scan-range] -1 <= i && i < idx && fullIdx == -1 && 0 <= idx && idx < len(ss.items)
+//@   loop 1 invariant [no-full-between] forall j int :: (i < j && j < idx) ==> ss.items[j].typ != Full
+//@   assert @set:dbFile: [nearest-full] fullIdx >= 0 && fullIdx < idx && ss.items[fullIdx].typ == Full && (forall j int :: (fullIdx < j && j < idx) ==> ss.items[j].typ != Full)
+//@   ghost update after @set:dbFile: base = fullIdx
+//@   assert @append: [chain-in-order] (lastI == -1 ==> i == base) && (lastI != -1 ==> i == lastI + 1) && i <= idx
+//@   ghost update after @append: lastI = i
+//@   loop 2 invariant [chain] 0 <= fullIdx && fullIdx <= i && i <= idx + 1 && idx < len(ss.items) && (i == fullIdx ==> lastI == -1) && (i > fullIdx ==> lastI == i - 1) && base == fullIdx && want == idx
+//@   ensures [chain-complete] (err == nil && base != -1) ==> lastI == want
+//
+// The adaptive sink: writes go to a temporary directory; an incremental snapshot is refused while a
+// full one is required; the requirement is cleared only after the final rename succeeded.
+//@ func (*Sink) Open
+//@   assigns **
+//@   ensures [writes-to-tmp] (result == nil && !old(s.opened)) ==> isTmp(s.snapTmpDirPath)
+//
+//@ func (*Sink) Write
+//@   requires [recv] s != nil
+//@   assigns **
+//@   ghost var asked bool = false
+//@   ghost var due int = -1
+//@   ghost update after @s.stc.DueNext: asked = (result1 == nil)
+//@   ghost update after @s.stc.DueNext: due = result0
+//@   assume before @NewFullSink: [protobuf-oneof-populated] arg1 != nil
+//@   ensures [no-incremental-while-full-needed] (s.localWALDir != old(s.localWALDir)) ==> (old(s.stc) == nil || (asked && due != Full))
+//
+//@ func (*Store) DueNext
+//@   assigns **
+//@   ghost var flag bool = false
+//@   ghost var count int = -1
+//@   ghost update after @fsutil.FileExists: flag = result
+//@   ghost update after @s.snapshotCount: count = result
+//@   ensures [full-when-flagged] flag ==> result0 == Full
+//@   ensures [full-when-empty] count == 0 ==> result0 == Full
+//@   ensures [incremental-otherwise] result0 == Incremental ==> (!flag && count != 0)
+//
+//@ func (*Store) SetDueNext
+//@   assigns **
+//@   assert @os.Create: [flag-set-for-full] t == Full && arg0 == s.fullNeededPath
+//@   assert @os.Remove: [flag-cleared-for-incremental] t == Incremental && arg0 == s.fullNeededPath
